@@ -30,6 +30,10 @@ pub struct Rewriter {
   pub id: String,
   pub rule: GRule,
   pub fix: String,
+  /// (variable of the enclosing rule used in `fix`, its single-line text): the reference
+  /// substitutes the text itself, the real rewriter has to look the variable up
+  #[serde(default)]
+  pub outer: Option<(String, String)>,
   /// optional expansion of the rewriter's own fix (object form)
   #[serde(default)]
   pub expand_start: Option<Expand>,
@@ -199,7 +203,17 @@ pub fn interpret(corpus: &Corpus, opts: &SrcOpts, ch: &Choice, st: &mut Stats) -
           }
           _ => GRule::Obj(vec![GRule::Kind(node.kind().to_string()), GRule::Regex("^.{1,6}$".into())]),
         };
-        let fix = ["R", "<é>", "", "f(x)\n  y"][*form as usize % 4].to_string();
+        let mut fix = ["R", "<é>", "", "f(x)\n  y"][*form as usize % 4].to_string();
+        // a fix that uses a variable of the enclosing rule (single-line captures only)
+        let mut outer = None;
+        if form % 2 == 1 {
+          let singles: Vec<_> = spec.holes.iter().filter(|h| !text[h.start..h.end].contains('\n') && !text[h.start..h.end].contains('$')).collect();
+          if !singles.is_empty() {
+            let h = singles[pick.index(singles.len())];
+            fix = format!("{fix}[${}]", h.name);
+            outer = Some((h.name.clone(), text[h.start..h.end].to_string()));
+          }
+        }
         let sep = |k: u8| Expand {
           rule: GRule::Regex(SEP_REGEX[k as usize % SEP_REGEX.len()].to_string()),
           stop: Stop::Neighbor,
@@ -208,6 +222,7 @@ pub fn interpret(corpus: &Corpus, opts: &SrcOpts, ch: &Choice, st: &mut Stats) -
           id: format!("rw{i}"),
           rule,
           fix,
+          outer,
           expand_start: (*form == 4).then(|| sep(3)),
           expand_end: (*form == 5).then(|| sep(0)),
         }
@@ -361,7 +376,14 @@ fn rewriter_fix_yaml(r: &Rewriter) -> serde_yaml::Value {
   serde_yaml::Value::Mapping(f)
 }
 
-fn rewriter_yaml(lang: &str, r: &Rewriter) -> String {
+fn rewriter_yaml(lang: &str, r: &Rewriter, outer_value: Option<&str>) -> String {
+  // stand-alone form for the reference: a variable of the enclosing rule is replaced by the
+  // text it is bound to in the enclosing match
+  let mut r = r.clone();
+  if let (Some((name, _)), Some(value)) = (&r.outer, outer_value) {
+    r.fix = r.fix.replace(&format!("${name}"), value);
+  }
+  let r = &r;
   let mut m = serde_yaml::Mapping::new();
   m.insert(ys("id"), ys(&r.id));
   m.insert(ys("language"), ys(lang));
@@ -507,7 +529,7 @@ pub fn check(case: &Case, st: &mut Stats) -> CheckResult {
       let env = nm.get_env();
       if let Some(got) = env.get_transformed("NEW") {
         let got = String::from_utf8_lossy(got).into_owned();
-        match reference_rewrite(case, rw, &sg, env, lang) {
+        match reference_rewrite(&case.lang, &case.source, rw, &sg, env) {
           Some((expect, fired)) => {
             st.label("rewrite_checked");
             if fired {
@@ -576,14 +598,13 @@ pub fn check(case: &Case, st: &mut Stats) -> CheckResult {
 /// Reference for `rewrite`: visit the captured node(s) in pre-order, first matching rewriter
 /// wins, drop edits starting before the previous accepted end, splice into the captured slice
 /// (or join the replacements).
-fn reference_rewrite<'t>(
-  case: &Case,
+pub fn reference_rewrite<'t>(
+  lang_name: &str,
+  src: &str,
   rw: &RewriteSpec,
   sg: &'t tsutil::Sg,
   env: &MetaVarEnv<'t, StrDoc<SupportLang>>,
-  lang: SupportLang,
 ) -> Option<(String, bool)> {
-  let src = &case.source;
   let name = rw.source.trim_start_matches('$');
   let nodes: Vec<TsNode> = if rw.source.starts_with("$$$") {
     env.get_multiple_matches(name).iter().map(|n| n.get_ts_node()).collect()
@@ -599,7 +620,17 @@ fn reference_rewrite<'t>(
   let globals = GlobalRules::default();
   let mut rws = vec![];
   for r in &rw.rewriters {
-    let c = from_yaml_string::<SupportLang>(&rewriter_yaml(&case.lang, r), &globals).ok()?;
+    let outer_value = match &r.outer {
+      Some((name, _)) => {
+        let v = env.get_match(name)?.text().to_string();
+        if v.contains('\n') || v.contains('$') {
+          return None;
+        }
+        Some(v)
+      }
+      None => None,
+    };
+    let c = from_yaml_string::<SupportLang>(&rewriter_yaml(lang_name, r, outer_value.as_deref()), &globals).ok()?;
     rws.push(c.into_iter().next()?);
   }
   let fixers: Vec<_> = rws.iter().map(|c| c.get_fixer().ok().flatten()).collect::<Option<Vec<_>>>()?;
@@ -621,7 +652,6 @@ fn reference_rewrite<'t>(
       }
     }
   }
-  let _ = lang;
   if edits.iter().any(|e| e.0 < start || e.0 + e.1 > end) {
     // an expanding rewriter fix reaches outside the captured text: the property only speaks
     // about edits relative to the captured text; nothing to compare (a panic is still caught)
